@@ -136,10 +136,19 @@ def segy_route(ctx, rng, k):
         with open(sgy, 'r+b') as f:
             f.seek(3600 + blank * (240 + 4 * n[2]))
             f.write(bytes(240))
+    wide = None
+    if rng.random() < .3:
+        # the two fields the plan leaves alone, at 16-bit values with the top bit set (segyio reports bytes 115-116, the
+        # trace's sample count, unsigned: traces of 32768..65535 samples are legal); written raw, big-endian
+        wide = [str(rng.choice(['const', 'vary', 'last'])) for _ in range(2)]
+        for t in range(ntr):
+            for c, w in zip((115, 117), wide):
+                u = {'const': 40000, 'vary': 32768 + 7 * t, 'last': 65535 if t == ntr - 1 else 6}[w]
+                mksegy.patch_trace_header_bytes(sgy, t, n[2], c, u - 65536 if u >= 32768 else u)
     src = view.segy_view(sgy)
     hyp = segycases.heuristic_hypothesis(src['headers']) if len(src['headers']) == src['tracecount'] else False
     for mode in MODES:
-        desc = {'kind': kind, 'n': n, 'traces': ntr, 'mode': mode, 'plan': [(c, kk) for c, kk, _ in plan.plan], 'blank_trace': blank,
+        desc = {'kind': kind, 'n': n, 'traces': ntr, 'mode': mode, 'plan': [(c, kk) for c, kk, _ in plan.plan], 'blank_trace': blank, 'wide_115_117': wide,
                 'il': il[:2], 'xl': xl[:2], 'heuristic_hypothesis': hyp}
         ctx.case((kind, n, mode, tuple(desc['plan']), tuple(il[:2]), tuple(xl[:2])), sample=desc)
         ctx.stats['mode_' + mode] += 1
